@@ -324,7 +324,9 @@ impl<T: SharedResource> SharedResourceConstraint<T> {
                             .and_then(|job| (self.resource_demand_fn)(job.as_ref()))
                             .unwrap_or_default();
 
-                        if resource_available.partial_cmp(&resource_demand) == Some(Ordering::Less) {
+                        // NOTE: multi-dimensional loads are only partially ordered: what is left can be less in one
+                        // dimension and more in another, so check that the demand fits in every dimension
+                        if !resource_available.can_fit(&resource_demand) {
                             ConstraintViolation::skip(self.violation_code)
                         } else {
                             ConstraintViolation::success()
